@@ -500,4 +500,8 @@ func (s SyscallWithConditions) Assemble(p *Program, action Label) {
 		p.SetLabel(noMatch)
 	}
 	p.SetLabel(nextSyscall)
+
+	// The argument checks have overwritten the syscall number in the accumulator,
+	// load it again for the syscalls and groups that follow.
+	p.instructions = append(p.instructions, bpf.LoadAbsolute{Off: syscallNumOffset, Size: sizeOfUint32})
 }
